@@ -53,3 +53,13 @@ Record PlatformOK (p : platform) : Prop := {
   ok_xm : forall cv block bl ctr fl n,
       ctr + n < 2 ^ 64 ->
       p_xof_many p cv block bl ctr fl n = portable_xof_many cv block bl ctr fl n }.
+
+(* a platform with the portable kernels but a given SIMD degree / MAX_SIMD_DEGREE:
+   what the crate's control flow sees at each SIMD level, with the kernels replaced
+   by their common specification (Model/Kernels.v relates the vector kernels to it) *)
+Definition sim_platform (degree max_degree : N) : platform :=
+  mkPlatform degree max_degree compress_in_place compress_xof hash_many portable_xof_many.
+
+Lemma sim_platform_ok d m :
+  is_pow2 d = true -> d <= m -> m <= 16 -> is_pow2 m = true -> PlatformOK (sim_platform d m).
+Proof. intros. constructor; cbn; auto. Qed.
